@@ -146,6 +146,9 @@ def _dt(s):
     return datetime.strptime(s, "%Y-%m-%dT%H") if "T" in s else datetime.strptime(s, "%Y-%m-%d")
 
 
+HANDLES = {}
+
+
 class Built:
     def __init__(self): self.obj = {}; self.system = None; self.spec = None
 
@@ -156,21 +159,22 @@ def build(spec, compute=True):
     spec = _copy.deepcopy(spec)
     b = Built(); b.spec = spec
     o = b.obj
+    dn = lambda n, d: d.get("display_name", n)
     for n, d in spec["storages"].items():
-        kw = {k: Q(v) for k, v in d.items()}
-        o[n] = Storage.ssd(n, **kw)
+        kw = {k: Q(v) for k, v in d.items() if k != "display_name"}
+        o[n] = Storage.ssd(dn(n, d), **kw)
     for n, d in spec["servers"].items():
         dv = Server.default_values()
         for k, v in d.items():
-            if k == "storage": continue
+            if k in ("storage", "display_name"): continue
             elif k == "server_type": dv[k] = {"autoscaling": ServerTypes.autoscaling, "on-premise": ServerTypes.on_premise, "serverless": ServerTypes.serverless}[v]()
             else: dv[k] = Q(v)
-        o[n] = Server(n, storage=o[d["storage"]], **dv)
+        o[n] = Server(dn(n, d), storage=o[d["storage"]], **dv)
     for n, d in spec["jobs"].items():
         dv = Job.default_values()
         for k, v in d.items():
-            if k != "server": dv[k] = Q(v)
-        o[n] = Job(n, server=o[d["server"]], **dv)
+            if k not in ("server", "display_name"): dv[k] = Q(v)
+        o[n] = Job(dn(n, d), server=o[d["server"]], **dv)
     for n, d in spec["steps"].items():
         o[n] = UsageJourneyStep(n, user_time_spent=Q(d["user_time_spent"]), jobs=[o[j] for j in d["jobs"]])
     for n, d in spec["journeys"].items():
@@ -192,6 +196,8 @@ def build(spec, compute=True):
     if compute:
         b.system = System("system", [o[x] for x in spec["system"]["ups"]])
         o["system"] = b.system
+    b.system_handles = {id(getattr(v, "_value", v)): k for k, v in o.items()}
+    if b.system is not None: HANDLES[id(b.system)] = b.system_handles
     return b
 
 
@@ -225,13 +231,16 @@ def all_objects(system):
 
 def snapshot(system, inputs=False):
     out = {}
+    handles = HANDLES.get(id(system), {})
     for obj in all_objects(system):
+        obj = getattr(obj, "_value", obj)
+        name = handles.get(id(obj), obj.name)
         for a in obj.calculated_attributes:
-            out[(obj.name, a)] = view(getattr(obj, a))
+            out[(name, a)] = view(getattr(obj, a))
         if inputs:
             for k, val in obj.__dict__.items():
                 if k in obj.calculated_attributes: continue
-                if isinstance(val, ExplainableObject): out[(obj.name, "input:" + k)] = view(val)
+                if isinstance(val, ExplainableObject): out[(name, "input:" + k)] = view(val)
     return out
 
 
